@@ -298,11 +298,8 @@ func (r *RefStore) Stats() Stats {
 			st.LatestBlock = n.BlockNumber
 		}
 	}
-	for acc, b := range r.Accounts {
-		st.TotalCredit.Add(st.TotalCredit, b)
-		if acc == "" {
-			st.TrialBalances++
-		}
+	for _, b := range r.Accounts {
+		st.TotalCredit.Add(st.TotalCredit, b) // (a wallet is a wallet, whatever its name: trial balances are those of unlinked nodes)
 	}
 	for _, b := range r.Trials {
 		st.TotalCredit.Add(st.TotalCredit, b)
